@@ -251,6 +251,8 @@ class Ctx:
                         checker_cmd="", trusted_base=[], rule="")
         self.assumptions = []
         self.level = LEVELS.get(pid, "proof")
+        # runs against a scratch copy of the repository (HDC_REPO, used by the seeded-change sweeps) leave the evidence files alone
+        self.write_evidence = str(REPO) == "/repo"
         self.notes = {}
 
     @property
